@@ -9,7 +9,13 @@ CHECKS = {
         'note': 'Trusted: pmc/ref/lexer.py as transcription of docs/notation.rst; small-scope hypothesis for longer strings and other characters; class of a quoted span containing raw VT/FF is not asserted.',
         'design_ref': 'DESIGN.md section 4 C08',
     },
+    'C07': {
+        'technique': 'bounded-exhaustive enumeration of all input strings and token sequences (explicit-state, real parser) against a reference LL(1) recogniser',
+        'text': 'Every string up to length 5 (quick) / 6 (thorough) over a 16-character delimiter alphabet, every token sequence up to length 8/9 (11 graph tokens) and 8/10 (13 triple-notation tokens) with dead-prefix pruning, macro-token sequences, a deterministic nesting family to depth 200, a long-token family and a Unicode substitution family are run through parse, iterparse (two containers) and parse_triples; outcome class, trees/triples and the reported (line, column) are compared with an independent recogniser on every input, and a process-level watchdog turns a hang (even inside C code) into a reported violation.',
+        'note': 'Trusted: pmc/ref/grammar.py + pmc/ref/lexer.py as transcription of docs/notation.rst and docs/serialization.rst; small-scope hypothesis beyond the bounds; position with zero tokens and metadata segmentation for ":::"/duplicate keys are not asserted.',
+        'design_ref': 'DESIGN.md section 4 C07',
+    },
 }
 
 NOT_APPLICABLE = {k: _PENDING for k in
-                  ['C01', 'C02', 'C03', 'C04', 'C05', 'C06', 'C07', 'C09', 'C10', 'C11', 'C12', 'C13', 'C14', 'C15', 'C16', 'C17', 'C18', 'C19', 'C20']}
+                  ['C01', 'C02', 'C03', 'C04', 'C05', 'C06', 'C09', 'C10', 'C11', 'C12', 'C13', 'C14', 'C15', 'C16', 'C17', 'C18', 'C19', 'C20']}
